@@ -56,16 +56,43 @@ def render_rule(p, r, cols_of=None):
   return '%s(%s) %s %s%s;' % (p['name'], h, p['op'], term(r['aggval']), tail)
 
 
+def render_disjunction(p, cols_of):
+  """All rules of a predicate as ONE rule whose body is a disjunction: the head carries fresh
+  variables, every alternative binds them (`P(q0) :- q0 == 0 | (B(y), q0 == y + 1)`). The
+  documentation gives `|` the meaning of several rules."""
+  hv = ['q%d' % i for i in range(p['arity'])]
+  alts = []
+  for r in p['rules']:
+    body = []
+    for q, args, valvar in r['atoms']:
+      a = args_text(args, cols_of.get(q))
+      body.append('%s == %s(%s)' % (valvar, q, a) if valvar else '%s(%s)' % (q, a))
+    for a, op, b in r['cmps']:
+      body.append('%s %s %s' % (a, op, term(b)))
+    for q, args in r.get('negs') or []:
+      body.append('~%s(%s)' % (q, args_text(args, cols_of.get(q))))
+    for v, t in zip(hv, r['head']):
+      body.append('%s == %s' % (v, term(t)))
+    alts.append('(' + ', '.join(body) + ')')
+  return '%s(%s)%s :- %s;' % (p['name'], ', '.join(hv), ' distinct' if p['kind'] == 'distinct' else '',
+                             ' | '.join(alts))
+
+
 def render(program, engine_line=True):
   out = []
   if engine_line:
     out.append('@Engine("sqlite");')
+  def attach_line():
+    if program.get('attach_via_flag'):
+      # the file name comes from a flag with a default
+      return ('@DefineFlag("db", "%s");\n@AttachDatabase("logica_home", "${db}");' % program['attach'])
+    return '@AttachDatabase("logica_home", "%s");' % program['attach']
   if program.get('attach') and not program.get('attach_after_noise'):
-    out.append('@AttachDatabase("logica_home", "%s");' % program['attach'])
+    out.append(attach_line())
   for n in program.get('noise', []):
     out.append(n)
   if program.get('attach') and program.get('attach_after_noise'):
-    out.append('@AttachDatabase("logica_home", "%s");' % program['attach'])
+    out.append(attach_line())
   for name in program.get('ground', []):
     t = (program.get('ground_table') or {}).get(name)
     if t:
@@ -95,6 +122,9 @@ def render(program, engine_line=True):
         continue
       for row in p['rows']:
         out.append('%s(%s);' % (p['name'], args_text([['c', v] for v in row], p.get('cols'))))
+      continue
+    if p.get('disj') and p['kind'] in ('bag', 'distinct') and len(p['rules']) >= 2 and not p.get('cols'):
+      out.append(render_disjunction(p, cols_of))
       continue
     for r in p['rules']:
       out.append(render_rule(p, r, cols_of))
@@ -604,5 +634,9 @@ def gen_recursive(r, depth=None):
       recursive[r.choice(others)] = max(1, min(d, r.choice([2, 3, 5, 8, d])))
   if second and r.random() < 0.25:
     recursive[[p['name'] for p in preds if p['name'] in ('Z', 'Aa')][0]] = r.choice([3, 5, 11, 12])
+  for p_ in preds:
+    # some predicates are written as one rule with `|` between what would be their rules
+    if p_['kind'] in ('bag', 'distinct') and len(p_.get('rules') or []) >= 2 and r.random() < 0.25:
+      p_['disj'] = True
   program = {'preds': preds, 'ground': [], 'recursive': recursive, 'attach': None, 'noise': []}
   return program, family, main
